@@ -149,4 +149,4 @@ func init() {
 var _ = strings.Join
 var _ = nitro.DiskBlockSize
 
-func c05ConcJobs(tier string) []Job { return nil }
+func c05ConcJobs(tier string) []Job { return concJobs("C05", tier) }
